@@ -124,6 +124,7 @@ type hist = {
   mutable init_kept : (n * n) list;        (* blocks a failed initialiser allocated and kept *)
   uniform : n;                             (* 0, or the one alignment of a uniform history *)
   mutable ubytes : n;                      (* uniform history: bytes allocated since the last reset *)
+  mutable generous : bool;                 (* so far every chunk was obtained at the first attempt with no limit in force *)
 }
 
 let xc_seen = ref 0
@@ -149,7 +150,7 @@ let new_hist (line : string) : hist =
     report_spec ~prop:"C04" ~pred:"cfg_ok" ~detail:("the_static_EMPTY_CHUNK_or_the_constants_do_not_meet_cfg_ok:eaddr=" ^ get "eaddr" ^ "_malign=" ^ get "malign");
   { k; b = fresh; held = []; live = []; p_ab = N0; p_abim = N0; p_cap = N0; p_chunks = [];
     feat = []; sig_ = Buffer.create 256; tw_sizes = []; tw_slots = []; dead = false; born_in_init = []; init_kept = [];
-    uniform = (try n_of_string (get "uniform") with Not_found -> N0); ubytes = N0 }
+    uniform = (try n_of_string (get "uniform") with Not_found -> N0); ubytes = N0; generous = true }
 
 let lay s a = { l_size = n_of_string s; l_align = n_of_string a }
 
@@ -317,6 +318,12 @@ let handle_op (h : hist) (line : string) =
          report_spec ~prop:"C18" ~pred:"sp_growth_ok"
            ~detail:(Printf.sprintf "prev_chunk=%s new_chunk=%s request=%s" (string_of_n prev) (string_of_n s) (string_of_n rsize))
      | _ -> ());
+    (* C18, whole history: a chunk obtained under a limit, or after a refusal in the same operation,
+       ends the "generous" regime of this history for good *)
+    (let refused = ref false in
+     List.iter (fun (_, _, ans) -> match ans with
+         | None -> refused := true
+         | Some _ -> if !refused || lim_before <> None then h.generous <- false) o.reqs);
     (* C03: frees *)
     if o.frees <> [] && kind <> "reset" && kind <> "drop" then
       report_spec ~prop:"C03" ~pred:"free_only_in_reset_drop" ~detail:(show_list show_g o.frees);
@@ -325,6 +332,11 @@ let handle_op (h : hist) (line : string) =
      | Some h' -> h.held <- h'
      | None -> report_spec ~prop:"C03" ~pred:"apply_frees" ~detail:(show_list show_g o.frees));
     List.iter (fun (s, a, ans) -> match ans with Some ad -> h.held <- ((ad, s), a) :: h.held | None -> ()) o.reqs;
+    if h.generous && List.for_all (fun ((_, s), _) -> N.ltb s (n_of_string "1099511627776")) h.held then begin
+      bump_count "chain_checks";
+      if not (sp_chain_ok k (List.map (fun ((_, s), _) -> s) h.held)) then
+        report_spec ~prop:"C18" ~pred:"sp_chain_ok" ~detail:(show_list (fun ((_, s), _) -> string_of_n s) h.held)
+    end;
     if kind = "drop" && h.held <> [] then
       report_spec ~prop:"C03" ~pred:"drop_frees_all" ~detail:(show_list show_g h.held);
     if kind = "reset" then begin
